@@ -85,6 +85,7 @@ type lexer struct {
 
 	mu     sync.Mutex
 	eof    bool
+	rerr   error // read error other than io.EOF; only the lexer goroutine touches it
 	err    error
 	cancel chan struct{}
 
@@ -1552,8 +1553,8 @@ func (l *lexer) scanCmdSubst(r rune) bool {
 		if ll.err != nil {
 			l.mu.Lock()
 			l.err = ll.err
-			if len(ll.stack) == 0 && r == '`' {
-				err := l.err.(Error)
+			l.rerr = ll.rerr
+			if err, ok := l.err.(Error); ok && len(ll.stack) == 0 && r == '`' {
 				l.err = Error{
 					Name: err.Name,
 					Pos:  err.Pos,
@@ -1732,6 +1733,9 @@ func (l *lexer) read() (rune, error) {
 		l.mark(0)
 	}
 
+	if l.rerr != nil {
+		return 0, l.rerr // a read error is final, even if the source would go on
+	}
 	r, _, err := l.r.ReadRune()
 	switch {
 	case err != nil:
@@ -1743,6 +1747,9 @@ func (l *lexer) read() (rune, error) {
 			l.err = err
 		}
 		l.mu.Unlock()
+		if err != io.EOF {
+			l.rerr = err
+		}
 	case r == '\n':
 		l.prevCol = l.col
 		l.line++
